@@ -315,11 +315,11 @@ func scenarios(tier string, yield func(any) bool) {
 }
 
 func bounds(tier string, sc *Scn) (explore.Bounds, int) {
-	b := explore.DefaultBounds(1)
-	b[explore.KSched] = 2
-	tot := 1
+	b := explore.DefaultBounds(2)
+	b[explore.KSched] = 4
+	tot := 3
 	if sc.Conns == 2 && sc.Size <= 3 && sc.Supply == "all" && (tier == "thorough" || (sc.Buf == 1 && sc.LatencyMS == 0)) {
-		tot = 2
+		tot = 3
 	}
 	if tier == "thorough" {
 		tot++
